@@ -1,10 +1,165 @@
 /-
-  Drive/Elab.lean — driver suite `elab` (stub; to be implemented).
+  Drive/Elab.lean — driver suite `elab`: a class body given as a list of field spellings (C13).
+  Runs the model (`Sem/Elaborate.elabClass` with the pinned type map) and the documented meaning
+  (`Spec/Meaning`) and returns both, plus the annotation text length the model computed.
+  Trusted glue: JSON decoding of spellings, JSON encoding of declarations.
 -/
 import TypedpyModel.Drive.Wire
+import TypedpyModel.Sem.Elaborate
+import TypedpyModel.Spec.Meaning
+import TypedpyModel.Pinned.TypeMap
 namespace Typedpy.Drive.Elab
 open Lean (Json)
+open Typedpy Typedpy.Wire Typedpy.Elab
 
-def run (_j : Json) : Except String Json := .error "suite elab not implemented"
+def scalarOfStr : String → Except String Scalar
+  | "int" => pure .int | "str" => pure .str | "float" => pure .float | "bool" => pure .bool
+  | "any" => pure .any | s => throw s!"scalar {s}"
+
+def collOfStr : String → Except String Coll
+  | "list" => pure .list | "set" => pure .set | "frozenset" => pure .frozenset | "deque" => pure .deque
+  | s => throw s!"coll {s}"
+
+partial def spOfJson (j : Json) : Except String Sp := do
+  let tag ← (← j.getObjVal? "s").getStr?
+  let sc : Except String Scalar := do scalarOfStr (← (← j.getObjVal? "k").getStr?)
+  let co : Except String Coll := do collOfStr (← (← j.getObjVal? "c").getStr?)
+  let sub (k : String) : Except String Sp := do spOfJson (← j.getObjVal? k)
+  match tag with
+  | "builtin" => pure (.builtin (← sc))
+  | "fcls" => pure (.fcls (← sc))
+  | "finst" => pure (.finst (← sc))
+  | "lit" => pure (.lit (← declOfJson (← j.getObjVal? "d")) (← (← j.getObjVal? "len").getNat?))
+  | "none" => pure .noneLit
+  | "bareBuiltin" => pure (.bareBuiltin (← co))
+  | "bareTyping" => pure (.bareTyping (← co))
+  | "bareCls" => pure (.bareCls (← co))
+  | "bareInst" => pure (.bareInst (← co))
+  | "pep585" => pure (.pep585 (← co) (← sub "x"))
+  | "typingG" => pure (.typingG (← co) (← sub "x"))
+  | "sub" => pure (.sub (← co) (← sub "x"))
+  | "call" => pure (.call (← co) (← sub "x"))
+  | "dictBare" => pure .dictBare
+  | "tDictBare" => pure .tDictBare
+  | "mapBare" => pure .mapBare
+  | "mapInst" => pure .mapInst
+  | "dict585" => pure (.dict585 (← sub "x") (← sub "y"))
+  | "dictTyping" => pure (.dictTyping (← sub "x") (← sub "y"))
+  | "mapSub" => pure (.mapSub (← sub "x") (← sub "y"))
+  | "mapCall" => pure (.mapCall (← sub "x") (← sub "y"))
+  | "optional" => pure (.optional (← sub "x"))
+  | "union" => pure (.union (← sub "x") (← sub "y"))
+  | "anyOf" => pure (.anyOf (← sub "x") (← sub "y"))
+  | "pipe" => pure (.pipe (← sub "x") (← sub "y"))
+  | s => throw s!"spelling {s}"
+
+def dfltOfJson (j : Json) : Except String DefaultSp := do
+  match optField j "dflt" with
+  | none => pure .none
+  | some x => do
+    let how ← (← x.getObjVal? "how").getStr?
+    let v ← valOfJson (← x.getObjVal? "v")
+    let n ← (← x.getObjVal? "len").getNat?
+    match how with
+    | "eq" => pure (.eq v n)
+    | "kw" => pure (.kw v n)
+    | s => throw s!"default {s}"
+
+def fieldSpOfJson (j : Json) : Except String FieldSp := do
+  let mode ← match ← (← j.getObjVal? "mode").getStr? with
+    | "ann" => pure Mode.ann
+    | "assign" => pure Mode.assign
+    | s => throw s!"mode {s}"
+  pure { name := ← (← j.getObjVal? "name").getStr?, mode, ty := ← spOfJson (← j.getObjVal? "ty"),
+         dflt := ← dfltOfJson j, inOptional := ← optBool j "inOptional" false }
+
+/-! encoding of declarations in the format of `harness/dump.dump_field` -/
+
+def optNatJ (k : String) : Option Nat → List (String × Json)
+  | none => []
+  | some n => [(k, Json.num (Lean.JsonNumber.fromNat n))]
+
+def signStr : Sign → String
+  | .any => "any" | .pos => "pos" | .neg => "neg" | .nonpos => "nonpos" | .nonneg => "nonneg"
+
+def numJ (kind : String) (o : NumOpts) : Json :=
+  Json.mkObj ([("k", Json.str kind)]
+    ++ (match o.mult with | none => [] | some m => [("mult", Json.num (Lean.JsonNumber.fromInt m))])
+    ++ (match o.min with | none => [] | some q => [("min", qToJson q)])
+    ++ (match o.max with | none => [] | some q => [("max", qToJson q)])
+    ++ (if o.exclMax then [("excl", Json.bool true)] else [])
+    ++ (if o.sign == .any then [] else [("sign", Json.str (signStr o.sign))]))
+
+def sizeJ (sz : SizeOpts) : List (String × Json) :=
+  optNatJ "minItems" sz.min ++ optNatJ "maxItems" sz.max ++ (if sz.uniq then [("uniq", Json.bool true)] else [])
+
+def seqJ : SeqKind → List (String × Json)
+  | .list => []
+  | .deque => [("seq", Json.str "deque")]
+
+partial def declToJson : FieldDecl → Json
+  | .number o => numJ "number" o
+  | .integer o => numJ "integer" o
+  | .float o => numJ "float" o
+  | .string lo hi pat => Json.mkObj ([("k", Json.str "string")] ++ optNatJ "minLength" lo ++ optNatJ "maxLength" hi
+      ++ (match pat with | none => [] | some p => [("pattern", Json.str p)]))
+  | .boolean => Json.mkObj [("k", "boolean")]
+  | .enumLit vs => Json.mkObj [("k", "enumLit"), ("values", Json.arr (vs.map valToJson).toArray)]
+  | .enumCls c ns => Json.mkObj [("k", "enumCls"), ("cls", Json.str c), ("names", Json.arr (ns.map Json.str).toArray)]
+  | .seqAny k sz => Json.mkObj ([("k", Json.str "seqAny")] ++ seqJ k ++ sizeJ sz)
+  | .seqOf k f sz => Json.mkObj ([("k", Json.str "seqOf"), ("item", declToJson f)] ++ seqJ k ++ sizeJ sz)
+  | .seqPos k fs addl sz => Json.mkObj ([("k", Json.str "seqPos"), ("items", Json.arr (fs.map declToJson).toArray),
+      ("addl", Json.bool addl)] ++ seqJ k ++ sizeJ sz)
+  | .setAny imm sz => Json.mkObj ([("k", Json.str "setAny")] ++ (if imm then [("imm", Json.bool true)] else []) ++ sizeJ sz)
+  | .setOf imm f sz => Json.mkObj ([("k", Json.str "setOf"), ("item", declToJson f)]
+      ++ (if imm then [("imm", Json.bool true)] else []) ++ sizeJ sz)
+  | .tupleOf f u => Json.mkObj ([("k", Json.str "tupleOf"), ("item", declToJson f)] ++ (if u then [("uniq", Json.bool true)] else []))
+  | .tuplePos fs u => Json.mkObj ([("k", Json.str "tuplePos"), ("items", Json.arr (fs.map declToJson).toArray)]
+      ++ (if u then [("uniq", Json.bool true)] else []))
+  | .mapAny sz => Json.mkObj ([("k", Json.str "mapAny")] ++ sizeJ sz)
+  | .mapOf k v sz => Json.mkObj ([("k", Json.str "mapOf"), ("key", declToJson k), ("val", declToJson v)] ++ sizeJ sz)
+  | .struct c fields defaults => Json.mkObj [("k", "struct"), ("name", Json.str c.name),
+      ("required", Json.arr (c.required.map Json.str).toArray), ("addl", Json.bool c.addl),
+      ("fields", Json.arr (fields.map fun (n, f) => Json.arr #[Json.str n, declToJson f]).toArray),
+      ("defaults", Json.arr (defaults.map fun (n, v) => Json.arr #[Json.str n, valToJson v]).toArray)]
+  | .anyOf fs => Json.mkObj [("k", "anyOf"), ("fields", Json.arr (fs.map declToJson).toArray)]
+  | .oneOf fs => Json.mkObj [("k", "oneOf"), ("fields", Json.arr (fs.map declToJson).toArray)]
+  | .allOf fs => Json.mkObj [("k", "allOf"), ("fields", Json.arr (fs.map declToJson).toArray)]
+  | .notF fs => Json.mkObj [("k", "notF"), ("fields", Json.arr (fs.map declToJson).toArray)]
+  | .noneF => Json.mkObj [("k", "noneF")]
+  | .anything => Json.mkObj [("k", "anything")]
+
+def fieldResToJson (r : R FieldRes) : Json :=
+  match r with
+  | .error e => Json.mkObj [("err", Json.str (errName e))]
+  | .ok .dropped => Json.mkObj [("dropped", Json.bool true)]
+  | .ok (.field d req dflt) => Json.mkObj [("d", declToJson d), ("req", Json.bool req),
+      ("dflt", match dflt with | none => Json.null | some v => valToJson v), ("hasDflt", Json.bool dflt.isSome)]
+
+def classResToJson (r : R FieldDecl) : Json :=
+  match r with
+  | .error e => Json.mkObj [("err", Json.str (errName e))]
+  | .ok d => Json.mkObj [("ok", declToJson d)]
+
+def runVariant (O : Oracles) (j : Json) : Except String Json := do
+  let future ← optBool j "future" false
+  let fields ← (← (← j.getObjVal? "fields").getArr?).toList.mapM fieldSpOfJson
+  let tm := Pinned.typeMap
+  let c : ClassSp := { future, fields }
+  let perField := fields.map fun fs =>
+    Json.mkObj [("name", Json.str fs.name),
+                ("res", fieldResToJson (elabField O tm future fs)),
+                ("meaning", fieldResToJson (fieldMeaning O fs)),
+                ("annLen", Json.num (Lean.JsonNumber.fromNat (annLenField fs))),
+                ("supported", Json.bool (fieldSupported O tm future fs))]
+  pure (Json.mkObj [("cls", classResToJson (elabClass O tm c)),
+                    ("fields", Json.arr perField.toArray),
+                    ("supported", Json.bool (classSupported O tm c))])
+
+/-- one case = several spellings (variants) of the same class body -/
+def run (j : Json) : Except String Json := do
+  let O ← oraclesOfJson j
+  let vs ← (← (← j.getObjVal? "variants").getArr?).toList.mapM (runVariant O)
+  pure (Json.mkObj [("variants", Json.arr vs.toArray)])
 
 end Typedpy.Drive.Elab
